@@ -135,10 +135,17 @@ type client struct {
 }
 
 func runC48(r *core.Run) {
-	core.Bubble(r, func(t *testing.T) { runC48Bubble(r) })
+	core.Bubble(r, func(t *testing.T) { runC48Bubble(r, false) })
 }
 
-func runC48Bubble(r *core.Run) {
+// runC48Herd biases the workload towards several callers blocked at once on the same condition
+// (many blocking readers with small buffers against few batch writers, or the reverse), where
+// wake-up bugs (signal instead of broadcast, lost wake-ups) show.
+func runC48Herd(r *core.Run) {
+	core.Bubble(r, func(t *testing.T) { runC48Bubble(r, true) })
+}
+
+func runC48Bubble(r *core.Run, herd bool) {
 	capacity := r.Range("cap", 1, 16)
 	prealloc := r.Chance("prealloc", 1, 6)
 	nclients := r.Range("clients", 1, 6) + r.Choice("clients+", 3)
@@ -159,8 +166,18 @@ func runC48Bubble(r *core.Run) {
 	for c := range clients {
 		clients[c] = &client{name: fmt.Sprintf("client:%d", c)}
 	}
+	herdReaders := r.Choice("herdside", 2) == 0
+	if herd {
+		nclients = max(nclients, 3)
+		clients = make([]*client, nclients)
+		for c := range clients {
+			clients[c] = &client{name: fmt.Sprintf("client:%d", c)}
+		}
+		maxOps = min(maxOps, 24)
+	}
 	for total < maxOps {
-		c := clients[r.Choice("opclient", nclients)]
+		ci := r.Choice("opclient", nclients)
+		c := clients[ci]
 		o := &op{}
 		if k := r.Choice("opkind", 8); k >= 4 {
 			o.kind = opRead
@@ -169,6 +186,20 @@ func runC48Bubble(r *core.Run) {
 		}
 		o.block = r.Choice("block", 4) < blockBias
 		n := r.Choice("batch", maxBatch+1)
+		if herd {
+			// client 0 is the lone batch producer (consumer); all others form the herd
+			o.block = true
+			if (ci == 0) == herdReaders {
+				o.kind = opWrite
+			} else {
+				o.kind = opRead
+			}
+			if ci == 0 {
+				n = 1 + r.Choice("batch", maxBatch)
+			} else {
+				n = 1 + r.Choice("herdbatch", 2)
+			}
+		}
 		o.vals = make([]int, n)
 		if o.kind == opWrite {
 			for j := range o.vals {
@@ -395,5 +426,6 @@ func runC48Bubble(r *core.Run) {
 func TestWorker(t *testing.T) {
 	core.Main(t, core.Engine{Name: "ringsim", Campaigns: map[string]core.RunFunc{
 		"C48/interleave": runC48,
+		"C48/herd":       runC48Herd,
 	}})
 }
